@@ -16,7 +16,7 @@ FIELDS = ["dmr_id", "callsign", "serial", "address_in", "address_out", "address_
 DYN = ["k1", "k2", "p2p_is_registered", "rx_freq", "serial", "callsign"]
 # the last two are what asyncio hands to datagram_received for IPv6 peers: (host, port, flowinfo, scope_id)
 ADDRS = [["10.0.0.1", 50000], ["10.0.0.1", 50002], ["10.0.0.2", 50000], ["10.0.0.2", 50002], ["fe80::1", 50000, 0, 0], ["fe80::1", 50000, 0, 3],
-         ["110.0.0.1", 50000], ["0.0.0.1", 50000], "EMPTY"]  # textual suffix / prefix relatives of the first IP; the library's own ADDRESS_EMPTY constant
+         ["110.0.0.1", 50000], ["0.0.0.1", 50000], "EMPTY", ["fe80::1%eth0", 50000, 0, 2]]  # textual suffix / prefix relatives of the first IP; the library's own ADDRESS_EMPTY constant; a zone-scoped link-local host
 DEFAULTS = {"dmr_id": None, "callsign": "", "serial": "", "address_out": ("", 0), "address_nat": ("", 0),
             "snmp_enabled": True, "nat_enabled": False}
 
@@ -153,7 +153,7 @@ class C20(Check):
         s = streams["sched"]
         nclients = k.choice([1, 2, 2, 3])
         n = k.choice([1, 2, 3, 5, 8, 13, 21, 34, 55, 89, 144, 233, 300])
-        naddr = k.choice([1, 2, 4, 6, 6, 9, 9])
+        naddr = k.choice([1, 2, 4, 6, 6, 9, 10, 10])
         weights = {o: k.choice([0, 1, 2, 4]) for o in
                    ["match_incoming", "save", "patch", "attr_set", "attr_get", "delete_attr", "match_attr", "match_ip", "match_uuid",
                     "held_patch", "held_attr", "len_all"]}
